@@ -121,6 +121,13 @@ func (o mergeOptions) mergeMessage(dst, src protoreflect.Message) {
 			if exists {
 				dstV := mergeFn(dst.Mutable(fd).Message(), v.Message())
 				dst.Set(fd, protoreflect.ValueOf(dstV))
+			} else if dst.Has(fd) && fd.Message().ParentFile().Package() == "google.protobuf" {
+				// Well-known types (wrappers, Duration, ...) are routinely shared between generated messages,
+				// for example proto.BoolFalse or package-level default wrappers. Merging into them in place
+				// would change every message that points at the same value; merge into a copy instead.
+				dstMsg := proto.Clone(dst.Get(fd).Message().Interface()).ProtoReflect()
+				o.mergeMessage(dstMsg, v.Message())
+				dst.Set(fd, protoreflect.ValueOfMessage(dstMsg))
 			} else {
 				o.mergeMessage(dst.Mutable(fd).Message(), v.Message())
 			}
